@@ -290,4 +290,27 @@ theorem abs_hom_par (hL : Lawful U evalF derivF) (sched : Problem U s → Schedu
     rw [h1, h2, hw]
     rfl
 
+/-! ### non-vacuity: lawful models and legal schedules exist -/
+
+/-- the model that stores its parameters and evaluates given functions of them -/
+def pureModel (evalF : Vector K p → Except E (Mat n m K))
+    (derivF : Vector K p → Fin p → Except E (Mat n m K)) : UserModel n m p K E where
+  State := Vector K p
+  setParams _ α := (α, .ok ())
+  params st := st
+  eval st := (st, evalF st)
+  deriv st k := (st, derivF st k)
+
+theorem pureModel_lawful (evalF : Vector K p → Except E (Mat n m K))
+    (derivF : Vector K p → Fin p → Except E (Mat n m K)) :
+    Lawful (pureModel evalF derivF) evalF derivF :=
+  ⟨fun _ _ => rfl, fun _ _ => rfl, fun _ => rfl, fun _ => rfl, fun _ _ => rfl, fun _ _ => rfl⟩
+
+/-- the schedule that runs every column task (in index order, or any permutation of it) is legal -/
+theorem complete_legal (val : Fin p → Except E (Mat n m K)) (order : List (Fin p))
+    (h : ∀ k : Fin p, k ∈ order) : Schedule.Legal val ⟨order⟩ := Or.inl h
+
+example (val : Fin p → Except E (Mat n m K)) : Schedule.Legal val ⟨List.finRange p⟩ :=
+  complete_legal val _ List.mem_finRange
+
 end Varpro
